@@ -33,6 +33,13 @@ structure HttpRequest where
     least one element); `MatchString s` is `!(re s).isEmpty` -/
 abbrev Regexp := Str → List Str
 
+/-- what a function did to a `*Response`: the headers it added with `AddHeader`, in order -/
+abbrev RespLog := List (Str × Str)
+
+/-- what a function did to a `*FilterChain`: one entry per `ProcessFilter` call — the response log at the
+    moment control was passed on -/
+abbrev ChainLog := List RespLog
+
 /-- `*p` / `p.f` through a pointer: a nil pointer is a run-time panic -/
 def deref {α : Type} (p : Option α) : Option α := p
 
